@@ -125,7 +125,7 @@ func devMain(args []string) {
 			}
 			if or.Status != "proved" && *dump != "" {
 				os.MkdirAll(*dump, 0o755)
-				os.WriteFile(*dump+"/"+sanitizeIdent(or.Name)+".smt2", []byte(or.Query), 0o644)
+				os.WriteFile(*dump+"/"+sanitizeIdent(or.Name)+".smt2", []byte(ExactQuery(or.Query)), 0o644)
 			}
 		}
 		var ns []string
